@@ -327,3 +327,87 @@ pub fn prand(tag: u64, n: usize, p: &BigUint) -> Vec<BigUint> {
     let nb = ((p.bits() as usize + 7) / 8) * 2;
     (0..n).map(|_| BigUint::from_bytes_le(&g.bytes(nb)) % p).collect()
 }
+
+/// Boundary classes of a multi-limb comparison with p (both 32- and 64-bit limb views): values
+/// that agree with p on all limbs above position i, differ at limb i by {-1, +1, +-2^(w-1), set to
+/// 0 / max}, and carry one of five patterns in the limbs below. Every N-byte value < 2^(8N).
+pub fn cmp_family(p: &BigUint, nbytes: usize) -> Vec<BigUint> {
+    let lim = BigUint::one() << (8 * nbytes);
+    let mut v: Vec<BigUint> = vec![];
+    for w in [32usize, 64] {
+        let n = nbytes * 8 / w;
+        let mask = (BigUint::one() << w) - 1u32;
+        let limb = |x: &BigUint, i: usize| -> BigUint { (x >> (w * i)) & &mask };
+        for i in 0..n {
+            let hi = (p >> (w * (i + 1))) << (w * (i + 1));
+            let pi = limb(p, i);
+            let half = BigUint::one() << (w - 1);
+            let mut mids: Vec<BigUint> = vec![pi.clone(), BigUint::zero(), mask.clone()];
+            if pi > BigUint::zero() {
+                mids.push(&pi - 1u32);
+            }
+            if pi < mask {
+                mids.push(&pi + 1u32);
+            }
+            mids.push((&pi + &half) & &mask);
+            mids.push((&pi + &half + 1u32) & &mask);
+            let low_mask = (BigUint::one() << (w * i)) - 1u32;
+            let plow = p & &low_mask;
+            let mut lows: Vec<BigUint> = vec![BigUint::zero(), low_mask.clone(), plow.clone()];
+            if plow > BigUint::zero() {
+                lows.push(&plow - 1u32);
+            }
+            if plow < low_mask {
+                lows.push(&plow + 1u32);
+            }
+            for m in &mids {
+                for l in &lows {
+                    let x = &hi + (m << (w * i)) + l;
+                    if x < lim {
+                        v.push(x);
+                    }
+                }
+            }
+        }
+    }
+    dedup(v)
+}
+
+/// Montgomery-domain limb patterns: canonical values x = m * R^-1 mod p whose INTERNAL
+/// (Montgomery, R = 2^(8*nbytes)) representation is the structured limb pattern m.
+/// level 0: all-zero / all-ones backgrounds with one distinguished 32-bit limb in
+/// {1, 2, 2^31, 2^32-2, 2^32-1}, low-k / high-k limbs all ones, p-1, 1  (~10 n/4 + 2 n/4 values);
+/// level 1: additionally every limb independently in {0, 2^32-1};
+/// level 2: every limb independently in {0, 1, 2^32-1} (32-byte fields only).
+pub fn mont_patterns(p: &BigUint, nbytes: usize, level: u8) -> Vec<BigUint> {
+    let f = Fld::new(p.clone());
+    let r_inv = f.inv(&((BigUint::one() << (8 * nbytes)) % p)).unwrap();
+    let nl = nbytes / 4;
+    let mut v: Vec<BigUint> = vec![BigUint::zero(), BigUint::one(), p - 1u32];
+    for i in 0..nl {
+        for pat in [1u32, 2, 0x8000_0000, 0xFFFF_FFFE, 0xFFFF_FFFF] {
+            for fill in [0u8, 0xFF] {
+                let mut b = vec![fill; nbytes];
+                b[4 * i..4 * i + 4].copy_from_slice(&pat.to_le_bytes());
+                v.push(BigUint::from_bytes_le(&b) % p);
+            }
+        }
+        let mut lo = vec![0u8; nbytes];
+        for x in lo[..4 * (i + 1)].iter_mut() {
+            *x = 0xFF;
+        }
+        v.push(BigUint::from_bytes_le(&lo) % p);
+        let mut hi = vec![0u8; nbytes];
+        for x in hi[4 * i..].iter_mut() {
+            *x = 0xFF;
+        }
+        v.push(BigUint::from_bytes_le(&hi) % p);
+    }
+    if level >= 1 {
+        v.extend(s_limb(p, nbytes, &[0, 0xFFFF_FFFF]));
+    }
+    if level >= 2 && nbytes == 32 {
+        v.extend(s_limb(p, nbytes, &[0, 1, 0xFFFF_FFFF]));
+    }
+    dedup(v).iter().map(|m| f.mul(m, &r_inv)).collect()
+}
